@@ -144,7 +144,8 @@ def part_pipe(sh, res):
     res.feat('pipe_fault_kind_' + FAULT_KIND[0])
     for name, text, hdr in shapes()[sh['lo']:sh['hi']]:
         big = [[BASE[i % len(BASE)][0], 'v%d;w' % i] for i in range(300)]
-        for A in tables() + ([[['k', 'L' * 3000 + ';z']] * 6] if sh['raw'] else []) + ([big] if name in ('streaming', 'header', 'unnest', 'sorted', 'update') else []):
+        mid = [[BASE[(i * 5) % len(BASE)][0], 'm%d;n;o' % i] for i in range(40)]
+        for A in tables() + ([[['k', 'L' * 3000 + ';z']] * 6] if sh['raw'] else []) + ([big] if name in ('streaming', 'header', 'unnest', 'sorted', 'update') else []) + ([mid] if sh.get('tier') == 'thorough' else []):
             names = ['c1', 'c2'] if hdr else None
             # fault-free run
             if not sh['raw']:
@@ -212,7 +213,7 @@ def part_badbyte(sh, res):
     good = s.encode('utf-8')
     variants = []
     for p in range(len(good)):
-        for rep in (b'\xff', b'\x80'):
+        for rep in ((b'\xff', b'\x80', b'\xc0', b'\xf8', b'\xed\xa0\x80') if sh.get('tier') == 'thorough' else (b'\xff', b'\x80')):       # thorough: also an overlong lead byte, an invalid 5-byte lead, an encoded surrogate
             variants.append((p, rep, good[:p] + rep + good[p + 1:]))
         variants.append((p, b'', good[:p + 1][:-1] if False else good[:p]))     # truncation at p
     seen = set()
@@ -228,7 +229,7 @@ def part_badbyte(sh, res):
         n = len(data)
         deliveries = [('chunk', cs, [data]) for cs in range(1, n + 2)]
         for pieces in compositions(data):
-            if len(pieces) <= 3 and len(pieces) > 1:
+            if len(pieces) <= (4 if sh.get('tier') == 'thorough' else 3) and len(pieces) > 1:
                 # compositions that put the bad byte first / last in its piece
                 offs = list(itertools.accumulate(len(x) for x in pieces))
                 starts = [0] + offs[:-1]
@@ -436,13 +437,19 @@ def main(tier, seed):
     n = len(shapes())
     shards = []
     for i in range(n):
-        shards.append({'part': 'pipe', 'raw': False, 'lo': i, 'hi': i + 1})
-        shards.append({'part': 'pipe', 'raw': True, 'lo': i, 'hi': i + 1})
-        shards.append({'part': 'pipe', 'raw': False, 'lo': i, 'hi': i + 1, 'exc': ('bare', 'eshutdown', 'message_only')[i % 3]})
-        shards.append({'part': 'pipe', 'raw': True, 'lo': i, 'hi': i + 1, 'exc': ('eshutdown', 'message_only', 'bare')[i % 3]})
+        shards.append({'part': 'pipe', 'raw': False, 'lo': i, 'hi': i + 1, 'tier': tier})
+        shards.append({'part': 'pipe', 'raw': True, 'lo': i, 'hi': i + 1, 'tier': tier})
+        if tier == 'thorough':
+            # every shape under every spelling of the broken-pipe error, text and raw
+            for exc in ('bare', 'eshutdown', 'message_only'):
+                shards.append({'part': 'pipe', 'raw': False, 'lo': i, 'hi': i + 1, 'exc': exc, 'tier': tier})
+                shards.append({'part': 'pipe', 'raw': True, 'lo': i, 'hi': i + 1, 'exc': exc, 'tier': tier})
+        else:
+            shards.append({'part': 'pipe', 'raw': False, 'lo': i, 'hi': i + 1, 'exc': ('bare', 'eshutdown', 'message_only')[i % 3], 'tier': tier})
+            shards.append({'part': 'pipe', 'raw': True, 'lo': i, 'hi': i + 1, 'exc': ('eshutdown', 'message_only', 'bare')[i % 3], 'tier': tier})
         shards.append({'part': 'protocol', 'lo': i, 'hi': i + 1})
     for s in SAMPLES:
-        shards.append({'part': 'badbyte', 'sample': s})
+        shards.append({'part': 'badbyte', 'sample': s, 'tier': tier})
     shards.append({'part': 'fd'})
     res = core.run_shards('vf.checks.c15', shards)
     return core.finish(PID, tier, seed, res, t0,
